@@ -815,9 +815,65 @@ class _Execution:
                              f"has a parent {type(area.parent).__name__} {loc_parts(area.parent.location)}",
                              sig=f"removed-keeps-parent:{type(area).__name__}:{op['op']}")
                 return
+        # ---- C06-a: the numbers *shown* on features (GenBank qualifiers) identify the features they stand for
+        if region_creation or op["op"] in ("roundtrip", "finalise", "add_proto", "add_sub"):
+            if not self._check_shown_numbers(protos, cands, subs, regions):
+                return
         # ---- C06-c
         if region_creation:
             self._check_regions(op)
+
+    def _check_shown_numbers(self, protos: Any, cands: Any, subs: Any, regions: Any) -> bool:
+        rec = self.record
+
+        def shown(feature: Any, key: str) -> List[int]:
+            return [int(value) for value in feature.to_biopython()[0].qualifiers.get(key, [])]
+        try:
+            for proto in protos:
+                numbers = shown(proto, "protocluster_number")
+                if len(numbers) != 1 or rec.get_protocluster(numbers[0]) is not proto:
+                    self.violate("C06-a", f"protocluster {loc_parts(proto.location)} shows number {numbers}, which is "
+                                 "not this protocluster", sig="shown-number:protocluster")
+                    return False
+            for sub in subs:
+                numbers = shown(sub, "subregion_number")
+                if len(numbers) != 1 or rec.get_subregion(numbers[0]) is not sub:
+                    self.violate("C06-a", f"subregion {loc_parts(sub.location)} shows number {numbers}, which is not "
+                                 "this subregion", sig="shown-number:subregion")
+                    return False
+            for cand in cands:
+                numbers = shown(cand, "candidate_cluster_number")
+                members = shown(cand, "protoclusters")
+                if len(numbers) != 1 or rec.get_candidate_cluster(numbers[0]) is not cand:
+                    self.violate("C06-a", f"candidate cluster {loc_parts(cand.location)} shows number {numbers}, which "
+                                 "is not this candidate cluster", sig="shown-number:candidate")
+                    return False
+                actual = list(cand.protoclusters)
+                if len(members) != len(actual) or any(not 1 <= n <= len(protos) or protos[n - 1] is not p
+                                                      for n, p in zip(members, actual)):
+                    self.violate("C06-a", f"candidate cluster {loc_parts(cand.location)} shows protocluster numbers "
+                                 f"{members}, which do not identify its protoclusters "
+                                 f"{[loc_parts(p.location) for p in actual]}", sig="shown-number:candidate-members")
+                    return False
+            for region in regions:
+                numbers = shown(region, "region_number")
+                if len(numbers) != 1 or rec.get_region(numbers[0]) is not region:
+                    self.violate("C06-a", f"region {loc_parts(region.location)} shows number {numbers}, which is not "
+                                 "this region", sig="shown-number:region")
+                    return False
+                for key, actual, pool in (("candidate_cluster_numbers", list(region.candidate_clusters), cands),
+                                          ("subregion_numbers", list(region.subregions), subs)):
+                    members = shown(region, key)
+                    if len(members) != len(actual) or any(not 1 <= n <= len(pool) or pool[n - 1] is not a
+                                                          for n, a in zip(members, actual)):
+                        self.violate("C06-a", f"region {loc_parts(region.location)} shows {key} {members}, which do not "
+                                     f"identify its members {[loc_parts(a.location) for a in actual]}",
+                                     sig=f"shown-number:region-{key}")
+                        return False
+        except ValueError:
+            # a member that is no longer in the record cannot show a number: that is C06-b's business
+            return True
+        return True
 
     def _check_regions(self, op: Dict[str, Any]) -> None:
         rec = self.record
